@@ -5,6 +5,7 @@ from ..loader import AnalysisError, norm_stmt, walk_own
 from ..rules_flow import forwarding, param_reaches_returns
 from .common import add_fwd, add_ret
 from .common import check as ob
+from ..canon import Canon
 from . import C04
 
 EXPLANATION = (
@@ -33,6 +34,7 @@ def provenance(ctx, rep, clause):
        clause)
     if target is None:
         return
+    cn = Canon(f.node)
     k = 0
     for n in walk_own(f.node):
         if isinstance(n, ast.Call) and isinstance(n.func, ast.Attribute) and isinstance(n.func.value, ast.Name) and \
@@ -45,6 +47,17 @@ def provenance(ctx, rep, clause):
             ob(rep, 'PROV', FQ, f'`{norm_stmt(n)[:70]}` writes a rounded number', ok, 'round(<mass>, precision)',
                f'`{norm_stmt(n)[:70]}` writes something that is not the result of round(...): the output may '
                f'contain a non-numeric modification', f.loc(n), clause)
+            if ok and val.args:
+                # rounded once: the mass inside round(...) is computed at full precision (an inner rounding is
+                # multiplied by the ^n multiplier and summed over the modifications of the site)
+                inner = cn.resolve(val.args[0])
+                early = [x for x in ast.walk(inner) if isinstance(x, ast.Name) and x.id == 'precision']
+                early += [x for x in ast.walk(inner) if isinstance(x, ast.Call) and norm_stmt(x.func) == 'round']
+                ob(rep, 'PROV', FQ, f'the value written by `{n.func.attr}` is rounded once, at the end', not early,
+                   'the mass inside round(...) does not depend on precision',
+                   f'the mass handed to round() in `{norm_stmt(n)[:60]}` is `{norm_stmt(inner)[:90]}`, which is already '
+                   f'rounded to `precision` per modification unit: with a ^n multiplier or several modifications the '
+                   f'rounding errors add up beyond the precision of the written shift', f.loc(n), clause)
     rep.floor('PROV', 'values written into the condensed annotation', k, 4)
     ret = [n for n in walk_own(f.node) if isinstance(n, ast.Return)]
     ok = len(ret) == 1 and f'{target}.serialize(' in norm_stmt(ret[0])
@@ -56,6 +69,8 @@ def check(ctx, rep):
     rep.explanation = EXPLANATION
     an, program = ctx.analyzer, ctx.program
     C04.strip_rule(ctx, rep, FQ, 'C18a')
+    from . import C20
+    C20.has_mods_coverage(ctx, rep, 'C18a')
     provenance(ctx, rep, 'C18b')
     from . import C01
     C01.value_text(ctx, rep, 'C18b')
